@@ -16,9 +16,6 @@ func (k Keeper) BeginBlocker(ctx context.Context) error {
 	if err := k.DistributeReward(sdkctx); err != nil {
 		return err
 	}
-	if err := k.DequeueMatureUnlocks(sdkctx); err != nil {
-		return err
-	}
 	if err := k.HandleVoteInfos(sdkctx); err != nil {
 		return err
 	}
@@ -30,6 +27,13 @@ func (k Keeper) BeginBlocker(ctx context.Context) error {
 
 func (k Keeper) EndBlocker(ctx context.Context) ([]abci.ValidatorUpdate, error) {
 	sdkctx := sdktypes.UnwrapSDKContext(ctx)
+
+	// Matured unlocks are queued at the end of the block: the system transactions due in a
+	// block are fixed when it is proposed, so the queue must not change between the proposal
+	// and the execution of its MsgNewEthBlock
+	if err := k.DequeueMatureUnlocks(sdkctx); err != nil {
+		return nil, err
+	}
 
 	lastSet := make(map[string]uint64)
 	{
